@@ -567,6 +567,183 @@ def arma_cases(ctx, cases):
                               cmp=env_cmp(1e-8, scale=8), tag="simulate"))
 
 
+
+def acov_exact(phi, theta, sigma, K):
+    """exact autocovariances gamma_0..gamma_{K-1} = sigma^2 sum_j psi_j psi_{j+k} of a stationary ARMA, as the rational
+    solution of gamma_k − sum_i phi_i gamma_|k−i| = sigma^2 sum_{j=k..q} theta_j psi_{j−k} (theta_0 = 1), k = 0..p,
+    continued by the same recursion (no truncation of the psi series)"""
+    p, q = len(phi), len(theta)
+    th = [F(1)] + list(theta)
+    ps = psi_exact(phi, theta, q + 1)
+
+    def rhs(k):
+        return sigma * sigma * sum(th[j] * ps[j - k] for j in range(k, q + 1)) if k <= q else F(0)
+    n = p + 1
+    A = [[F(0)] * n for _ in range(n)]
+    b = []
+    for k in range(n):
+        A[k][k] += 1
+        for i in range(1, p + 1):
+            A[k][abs(k - i)] -= phi[i - 1]
+        b.append(rhs(k))
+    g = solve_frac(A, b)
+    while len(g) < K:
+        k = len(g)
+        g.append(sum(phi[i - 1] * g[k - i] for i in range(1, p + 1)) + rhs(k))
+    return g[:K]
+
+
+def spec_exact(ma, ar, sigma, c, s):
+    """sigma^2 |ma(z)|^2 / |ar(z)|^2 at z = e^{-iw} = c − i s, exact"""
+    def ev(poly):
+        re, im = F(0), F(0)
+        zr, zi = F(1), F(0)
+        for coef in poly:
+            re += coef * zr; im += coef * zi
+            zr, zi = zr * c + zi * s, zi * c - zr * s
+        return re * re + im * im
+    return sigma * sigma * ev(ma) / ev(ar)
+
+
+# inverse roots (moduli rho) of the persistent stream; autocovariance() is an inverse FFT over a fixed 1200-point
+# grid, so the *clean* code carries an aliasing error of about rho^(1200−k)·gamma_0 at lag k: 3e-9 at rho = 251/256
+# and k = 200, but 1.5e-6 at rho = 253/256 and 1.6e-4 at rho = 127/128 already at lag 0 (measured).  The oracle's
+# tolerance is ACOV_TOL·gamma_0; the stream stays where rho^(1200−K) is two orders of magnitude below it.
+PERSISTENT_RHO = [F(61, 64), F(31, 32), F(123, 128), F(125, 128), F(251, 256)]
+ACOV_TOL = F(2, 10 ** 7)
+
+
+def gen_persistent_phi(ctx, p):
+    """AR polynomial with exactly one persistent real root or conjugate pair (modulus in PERSISTENT_RHO up to grid
+    rounding, at most 251/256), remaining roots of modulus <= 3/4; returns (phi, rho_max as float)"""
+    if p >= 2 and ctx.rng.random() < 0.5:
+        # conjugate pair a ± bi on the dyadic grid /256 with modulus in [0.95, 0.9805]
+        while True:
+            a = F(ctx.rng.randint(-250, 250), 256)
+            target = ctx.rng.choice(PERSISTENT_RHO)
+            b2 = target * target - a * a
+            if b2 <= 0:
+                continue
+            b = F(int(math.sqrt(float(b2)) * 256), 256)
+            m2 = a * a + b * b
+            if b > 0 and F(95, 100) ** 2 <= m2 <= F(251, 256) ** 2:
+                break
+        poly = [F(1), -2 * a, m2]
+        rho = math.sqrt(float(m2))
+        left = p - 2
+        ctx.count("arma-persistent:complex-pair")
+    else:
+        r = ctx.rng.choice(PERSISTENT_RHO) * ctx.rng.choice([1, 1, -1])
+        poly = [F(1), -r]
+        rho = abs(float(r))
+        left = p - 1
+        ctx.count("arma-persistent:real-root")
+    if left > 0:
+        rest = gen_phi(ctx, left)
+        poly = poly_mul(poly, [F(1)] + [-c for c in rest])
+    return [-c for c in poly[1:]], rho
+
+
+def arma_persistent_cases(ctx, cases):
+    """stationary but persistent processes (an AR root within 2–5 % of the unit circle): autocovariances against the
+    exact rational gamma_k, spectral density on the default grids against the exact value at the rational grid points"""
+    import warnings
+    from quantecon import ARMA
+    worst = 0.0
+    for it in range(ctx.n(24, 200)):
+        p = ctx.rng.randint(1, 4)
+        q = ctx.rng.randint(0, 4)
+        if it < 4:
+            p, q = (1, 0) if it < 2 else (1, 1)       # AR(1) / ARMA(1,1): textbook closed forms
+        phi, rho = gen_persistent_phi(ctx, p)
+        theta = [F(ctx.rng.randint(-16, 16), 8) for _ in range(q)]
+        sigma = F(ctx.rng.choice([1, 2, 3, 1]), ctx.rng.choice([1, 2, 4]))
+        if any(F(float(v)) != v for v in phi):
+            ctx.count("arma-persistent:skipped-inexact-coefficients")
+            continue
+        K = ctx.rng.choice([1, 4, 16, 16, 64, 100, 200])
+        arma = ARMA([float(v) for v in phi] if (p > 1 or it % 2) else float(phi[0]),
+                    [float(v) for v in theta], float(sigma))
+        rep = {"op": "acov", "phi": [str(v) for v in phi], "theta": [str(v) for v in theta], "sigma": str(sigma),
+               "num_autocov": K, "rho_max": rho}
+        with warnings.catch_warnings():
+            warnings.simplefilter("ignore")
+            ac = [float(v) for v in arma.autocovariance(K)]
+            ac_default = [float(v) for v in arma.autocovariance()] if it % 4 == 0 else None
+        g = acov_exact(phi, theta, sigma, max(K, 16))
+        if it < 4:
+            # self-check of the oracle against the closed forms of AR(1) / ARMA(1,1)
+            f1, t1 = phi[0], (theta[0] if theta else F(0))
+            g0 = sigma * sigma * (1 + 2 * f1 * t1 + t1 * t1) / (1 - f1 * f1)
+            g1 = sigma * sigma * (f1 + t1) * (1 + f1 * t1) / (1 - f1 * f1)
+            if g[0] != g0 or g[1] != g1 or g[2] != f1 * g1:
+                raise AssertionError("oracle self-check: ARMA(1,1) autocovariances")
+        bad = None
+        if len(ac) != K:
+            bad = "autocovariance(%d) returned %d values" % (K, len(ac))
+        else:
+            for k in range(K):
+                err = abs(F(ac[k]) - g[k]) / g[0]
+                worst = max(worst, float(err))
+                if err > ACOV_TOL:
+                    bad = "autocovariance(%d)[%d]=%r, exact sigma^2 sum_j psi_j psi_(j+k)=%r (error %.2e of gamma_0, rho=%.4f)" % (
+                        K, k, ac[k], float(g[k]), float(err), rho)
+                    break
+        if bad is None and ac_default is not None:
+            if len(ac_default) != 16 or any(abs(F(a) - b) / g[0] > ACOV_TOL for a, b in zip(ac_default, g)):
+                bad = "autocovariance() (default 16 lags) differs from the exact autocovariances"
+        if bad:
+            ctx.spec_fail("arma_autocovariance", bad, rep)
+        ctx.count("test:autocovariance-persistent", K)
+        ctx.count("arma-persistent:rho>=0.975" if rho >= 0.975 else "arma-persistent:rho<0.975")
+        # spectral density on the default grids at the grid points that are exact rational points of the circle
+        ma = [F(1)] + theta
+        ar = [F(1)] + [-v for v in phi]
+        for two_pi, res in ((True, 1200), (False, 1200), (True, ctx.rng.choice([8, 256, 1024])), (False, ctx.rng.choice([6, 512]))):
+            wg, sg = arma.spectral_density(two_pi=two_pi, res=res) if (res != 1200 or not two_pi) else arma.spectral_density()
+            top = 2 * math.pi if two_pi else math.pi
+            badg = None
+            if len(wg) != res or len(sg) != res:
+                badg = "%d frequencies, expected %d" % (len(wg), res)
+            elif any(abs(float(wg[k]) - top * k / res) > 1e-12 for k in (0, 1, res // 2, res - 1)):
+                badg = "frequency grid is not %s*k/res" % ("2pi" if two_pi else "pi")
+            else:
+                pts = [(0, F(1), F(0))]
+                if two_pi:
+                    pts += [(res // 4, F(0), F(1)), (res // 2, F(-1), F(0)), (3 * res // 4, F(0), F(-1))] if res % 4 == 0 else []
+                else:
+                    pts += [(res // 2, F(0), F(1))] if res % 2 == 0 else []
+                for k, c, s_ in pts:
+                    refv = spec_exact(ma, ar, sigma, c, s_)
+                    gv = complex(sg[k])
+                    if abs(F(gv.real) - refv) > F(1, 10 ** 9) * refv + F(1, 10 ** 12) or abs(gv.imag) > 1e-9 * float(refv) + 1e-12:
+                        badg = "spect[%d]=%r, sigma^2|theta/phi|^2=%r" % (k, gv, float(refv))
+                        break
+            if badg:
+                ctx.spec_fail("arma_spectral_grid", "spectral_density(two_pi=%s, res=%d): %s" % (two_pi, res, badg), dict(rep, res=res))
+            ctx.count("test:spectral-density-grid-persistent")
+    # one fixed probe beyond the boundary (rho > 251/256): the clean code's own aliasing, dedicated narrow key
+    probe_phi, probe_K = F(127, 128), 16
+    assert probe_phi > max(PERSISTENT_RHO)
+    with warnings.catch_warnings():
+        warnings.simplefilter("ignore")
+        acp = [float(v) for v in ARMA(float(probe_phi), 0, 1.0).autocovariance(num_autocov=probe_K)]
+    gp = acov_exact([probe_phi], [F(0)], F(1), probe_K)
+    errp = abs(F(acp[0]) - gp[0]) / gp[0]
+    ctx.count("arma-persistent:aliasing-probe")
+    if errp > ACOV_TOL:
+        ctx.spec_fail("arma_autocovariance_aliasing",
+                      "ARMA(phi=127/128).autocovariance(16)[0]=%r, exact gamma_0=%r (error %.2e of gamma_0, rho=127/128 > 251/256)" % (
+                          acp[0], float(gp[0]), float(errp)),
+                      {"op": "acov", "phi": ["127/128"], "theta": ["0"], "sigma": "1", "num_autocov": probe_K, "lag": 0,
+                       "got": acp[0], "exact": str(gp[0])})
+    ctx.extra["autocovariance_aliasing_probe_rel_error"] = float(errp)
+    ctx.extra["autocovariance_persistent"] = {
+        "tolerance_rel_gamma0": float(ACOV_TOL), "worst_observed_rel_error": worst,
+        "rho_max_generated": float(max(PERSISTENT_RHO)),
+        "boundary": "the code's fixed 1200-point inverse FFT aliases by about rho^(1200-k): above rho ~ 0.9886 the unchanged "
+                    "code itself is off by more than 1e-6 of gamma_0 (1.6e-4 at rho=127/128); such processes are not generated"}
+
 # ----------------------------------------------------------------------------------------------------
 # hamilton_filter
 
@@ -815,6 +992,7 @@ def run(ctx):
     ecdf_cases(ctx, cases)
     bb_cases(ctx, cases)
     arma_cases(ctx, cases)
+    arma_persistent_cases(ctx, cases)
     hamilton_cases(ctx, cases)
     spectral_cases(ctx, cases)
     ctx.assumptions.append("FFT, scipy.signal.freqz/dimpulse/dlsim, sqrt, beta/binom of scipy.special are not modelled: the clauses that "
